@@ -31,7 +31,9 @@ RULE = ("operation histories (<= 14 ops) over 2-5 TreeArrays built from random t
         "incl. empties, self-merges, both rootings, explicit and implicit rooting, matching and mismatching settings; "
         "SumTrees schedules = (file->worker assignment, arrival order) on the real collation/worker code; thorough adds every "
         "schedule for <= 3 files x <= 4 workers, every partition/arrival order of <= 4 trees into <= 3 parts, and real "
-        "multi-process CLI runs; non-trivial = at least two non-empty parts merged, or an empty part merged, or an idle worker")
+        "multi-process CLI runs (-M, -m 2, -m 3, five times each, every other one pinned to one CPU); schedules with asynchronous "
+        "delivery of the work items (interleavings of deliveries and worker queue operations on the real worker code, sampled; "
+        "exhaustive for 1-2 files x 2 workers and 1 file x 3 workers in thorough); non-trivial = at least two non-empty parts merged, or an empty part merged, or an idle worker")
 MODELLED_NOT_VERIFIED = [
     "C06: the Lean TreeArray/SplitDistribution/SumTrees model is hand-written from TreeArray.add_tree/insert/update/extend/"
     "__iadd__/__add__, SplitDistribution.count_splits_on_tree/update/calc_freqs, calculate_log_product_of_split_supports and "
@@ -55,8 +57,13 @@ EXPLANATION = ("Theorems (Props/C06.lean) about the definitions drv_c06 runs: al
                "observable and rows), sumtrees_schedule_independent, freq_of_obs, scores_of_obs, mcc_scores_of_obs, mcc_topologies_of_obs. "
                "consensus_of_obs_partial: proved for the set of candidate splits handed to the tree builder, not for their order; the "
                "order (insDesc tie-break) and the first-strict-maximum index mccIndex are tied to the code by the correspondence "
-               "(greedy consensus at min_freq 1/4 on tie-rich samples; index compared when the exact maximiser is unique).")
+               "(greedy consensus at min_freq 1/4 on tie-rich samples; index compared when the exact maximiser is unique). "
+               "mcc_index_spec: mccIndex is a maximiser of the scores and the first one (fractions with positive denominators). "
+               "async_sentinel_every_file_once / sumtrees_async_schedule_independent: queue-level worker protocol with asynchronous "
+               "put (Model/C06Proto.lean, driver op async): with blocking get and one end marker per worker every schedule of "
+               "deliveries and worker moves ends with all workers stopped, every file read exactly once, and the serial observable.")
 
+ASYNC_IN_QUICK = True           # asynchronous-delivery schedules are explored in both tiers
 THETA = Fraction(3, 5)          # majority-rule threshold of the brute-force consensus oracle (all candidates compatible)
 MODEL_THETA = Fraction(1, 4)    # threshold of the model comparison: greedy consensus, the order of the candidates matters
 
@@ -997,7 +1004,9 @@ def run_hist_case(ctx, dendropy, case, pending, kind):
 def flush(ctx, pending):
     outs = ctx.ask([p[0] for p in pending])
     for (line, case, results, canons), out in zip(pending, outs):
-        if case.get("mode") == "sched":
+        if case.get("mode") == "sched" and case.get("choices") is not None:
+            compare_async(ctx, case, results, canons, out)
+        elif case.get("mode") == "sched":
             compare_sched(ctx, case, results, canons, out)
         else:
             compare_model(ctx, case, line, results, canons, out)
@@ -1006,41 +1015,58 @@ def flush(ctx, pending):
 
 # ======================================================================================= SumTrees schedules
 class FakeQueue(object):
-    """stand-in for multiprocessing.Queue.  Roles are recognised by use, not by creation order or attribute names: the queue
-    on which the parent *blocks* (`get()`) is the results queue; the other shared queue holding items at that moment is
-    the work queue"""
+    """stand-in for multiprocessing.Queue with its *asynchronous* put: an item put by the parent is "in flight" (still in
+    the feeder thread) until a schedule step delivers it; `get_nowait` on an empty-but-in-flight queue raises Empty,
+    a blocking `get` waits for a delivery.  Roles are recognised by use, not by creation order or attribute names: the
+    queue on which the parent blocks is the results queue; queues read by workers are work queues."""
 
-    def __init__(self, owner=None):
-        self.items = []
-        self.owner = owner
-        if owner is not None:
-            owner.queues.append(self)
+    def __init__(self, sim):
+        self.sim = sim
+        self.inflight = []
+        self.delivered = []
+        self.results = []        # (worker index, object) put by workers
+        self.items = []          # what the parent will read (filled in arrival order when the simulation is over)
+        sim.queues.append(self)
 
     def put(self, x, *a, **k):
-        self.items.append(x)
+        w = self.sim.current_worker()
+        if w is None:
+            self.inflight.append(x)
+        else:
+            self.results.append((w, x))
 
-    def put_nowait(self, x):
-        self.items.append(x)
+    put_nowait = put
 
     def empty(self):
-        return not self.items
+        return not self.delivered
 
     def qsize(self):
-        return len(self.items)
+        return len(self.delivered) + len(self.inflight)
 
     def get_nowait(self):
-        if not self.items:
+        w = self.sim.current_worker()
+        if w is None:
+            if not self.items:
+                raise pyqueue.Empty
+            return self.items.pop(0)
+        self.sim.sync(w, "nowait", self)
+        if not self.delivered:
             raise pyqueue.Empty
-        return self.items.pop(0)
+        return self.sim.take(w, self)
 
     def get(self, block=True, timeout=None):
         if not block:
             return self.get_nowait()
-        if self.owner is not None and not self.owner.ran:
-            self.owner.run_workers(self)
-        if not self.items:
-            raise RuntimeError("collation loop would block: fewer results than workers")
-        return self.items.pop(0)
+        w = self.sim.current_worker()
+        if w is None:
+            # the parent blocks: this is the collation loop waiting for results
+            if not self.sim.ran:
+                self.sim.run(self)
+            if not self.items:
+                raise RuntimeError("collation loop would block: fewer results than workers")
+            return self.items.pop(0)
+        self.sim.sync(w, "block", self)
+        return self.sim.take(w, self)
 
 
 class FakeLock(object):
@@ -1057,47 +1083,139 @@ class FakeLock(object):
         return False
 
 
-class Schedule(object):
-    """deterministic stand-in for the OS scheduler: which worker takes which file, and in which order results arrive"""
+class Sim(object):
+    """deterministic stand-in for the OS scheduler.  Every worker's `run()` executes in its own thread, but only one thread
+    runs at a time: at each queue operation a worker hands control back, and the `policy` picks the next enabled action:
+    ("deliver", q) moves the oldest in-flight item of queue q into the pipe; ("step", i) lets worker i perform its
+    pending queue operation and run on to its next one.  A worker blocked in `get` on an empty pipe is not enabled.
+    `arrival` = order in which the workers' results reach the parent."""
 
-    def __init__(self, assignment, arrival):
-        self.assignment = assignment
+    def __init__(self, policy, arrival):
+        import threading
+        self.threading = threading
+        self.policy = policy
         self.arrival = arrival
         self.queues = []
         self.started = []
         self.ran = False
+        self.back = threading.Semaphore(0)
+        self.st = []
+        self.by_thread = {}
+        self.taken = []          # (item, worker) in the order taken
+        self.trace = []          # (chosen index, number of enabled actions)
+        self.deadlock = False
 
-    def run_workers(self, results):
+    def current_worker(self):
+        return self.by_thread.get(self.threading.get_ident())
+
+    def sync(self, w, kind, q):
+        st = self.st[w]
+        st["pending"] = (kind, q)
+        self.back.release()
+        st["sem"].acquire()
+        st["pending"] = None
+
+    def take(self, w, q):
+        x = q.delivered.pop(0)
+        self.taken.append((x, w))
+        return x
+
+    def _body(self, i, worker):
+        self.by_thread[self.threading.get_ident()] = i
+        st = self.st[i]
+        st["sem"].acquire()
+        try:
+            worker.run()
+        except BaseException as e:   # noqa
+            st["exc"] = e
+        st["done"] = True
+        self.back.release()
+
+    def run(self, results):
         self.ran = True
-        shared = [q for q in self.queues if q is not results and q.items]
-        work = shared[0] if shared else None
-        files = list(work.items) if work is not None else []
-        if work is not None:
-            work.items = []
-        per = {}
+        self.sentinels = sum(1 for q in self.queues for x in q.inflight if x is None)
         for i, w in enumerate(self.started):
-            mine = FakeQueue()
-            mine.items = [f for f, a in zip(files, self.assignment) if a == i]
-            out = FakeQueue()
-            for name, val in list(vars(w).items()):
-                if work is not None and val is work:
-                    setattr(w, name, mine)
-                elif val is results:
-                    setattr(w, name, out)
-            w.run()
-            per[i] = out.items
-        results.items = [x for i in self.arrival for x in per[i]]
+            st = {"sem": self.threading.Semaphore(0), "pending": ("start", None), "done": False, "exc": None}
+            self.st.append(st)
+            t = self.threading.Thread(target=self._body, args=(i, w), daemon=True)
+            st["thread"] = t
+            t.start()
+        while True:
+            enabled = []
+            for qi, q in enumerate(self.queues):
+                if q.inflight:
+                    enabled.append(("deliver", qi))
+            for i, st in enumerate(self.st):
+                if st["done"] or st["pending"] is None:
+                    continue
+                kind, q = st["pending"]
+                if kind in ("start", "nowait") or q.delivered:
+                    enabled.append(("step", i))
+            if all(st["done"] for st in self.st):
+                break
+            if not any(a[0] == "step" for a in enabled) and not enabled:
+                self.deadlock = True
+                break
+            k = self.policy(enabled, self) % len(enabled)
+            self.trace.append((k, len(enabled)))
+            act = enabled[k]
+            if act[0] == "deliver":
+                q = self.queues[act[1]]
+                q.delivered.append(q.inflight.pop(0))
+            else:
+                self.st[act[1]]["sem"].release()
+                self.back.acquire()
+        for st in self.st:
+            if st["exc"] is not None and not isinstance(st["exc"], Exception):
+                raise st["exc"]
+        if self.deadlock:
+            raise RuntimeError("deadlock: every unfinished worker blocks on an empty work queue")
+        for st in self.st:
+            if st["exc"] is not None:
+                raise st["exc"]
+        per = {}
+        for w, x in results.results:
+            per.setdefault(w, []).append(x)
+        results.items = [x for i in self.arrival for x in per.get(i, [])]
 
 
-def run_parallel(dendropy, sumtrees, files, nworkers, assignment, arrival, rooted, tns, use_weights=True, flags=(0, 1, 1)):
-    sched = Schedule(assignment, arrival)
+def assignment_policy(assignment):
+    """the schedules of the first delivery: everything is delivered before any worker asks; file k goes to worker
+    assignment[k]; then the remaining workers find the queue empty (or their end-of-work marker)"""
+    def policy(enabled, sim):
+        for k, a in enumerate(enabled):
+            if a[0] == "deliver":
+                return k
+        nfile = len([1 for x, _ in sim.taken if x is not None])
+        want = assignment[nfile] if nfile < len(assignment) else None
+        steps = [(k, a[1]) for k, a in enumerate(enabled) if a[0] == "step"]
+        for k, i in steps:
+            if i == want:
+                return k
+        return steps[0][0] if steps else 0
+    return policy
+
+
+def choice_policy(choices):
+    """explicit schedule: the k-th decision takes enabled action number choices[k] (mod the number enabled; 0 afterwards)"""
+    def policy(enabled, sim):
+        k = len(sim.trace)
+        return choices[k] if k < len(choices) else 0
+    return policy
+
+
+def run_parallel(dendropy, sumtrees, files, nworkers, assignment, arrival, rooted, tns, use_weights=True, flags=(0, 1, 1),
+                 choices=None, sim_out=None):
+    sim = Sim(choice_policy(choices) if choices is not None else assignment_policy(assignment), arrival)
+    if sim_out is not None:
+        sim_out.append(sim)
     orig_mp = sumtrees.multiprocessing
     W = sumtrees.TreeAnalysisWorker
     had_start, had_term = W.__dict__.get("start"), W.__dict__.get("terminate")
-    fake = type("FakeMultiprocessing", (), {"Queue": staticmethod(lambda: FakeQueue(sched)), "Lock": staticmethod(FakeLock),
+    fake = type("FakeMultiprocessing", (), {"Queue": staticmethod(lambda *a, **k: FakeQueue(sim)), "Lock": staticmethod(FakeLock),
                                             "Process": orig_mp.Process})
     sumtrees.multiprocessing = fake
-    W.start = lambda self: sched.started.append(self)
+    W.start = lambda self: sim.started.append(self)
     W.terminate = lambda self: None
     try:
         tp = sumtrees.TreeProcessor(is_source_trees_rooted=rooted, ignore_edge_lengths=bool(flags[0]), ignore_node_ages=bool(flags[1]),
@@ -1162,20 +1280,39 @@ def exec_sched(ctx, dendropy, case, sf=None, serial_cache=None):
         # without --weighted-trees the reader does not even store the weights
         recs = [[record(dict(s, rooted=eff, weight=s["weight"] if uw else None), not flags[1]) for s in f] for f in case["files"]]
         nw = case["nworkers"]
-        line = ["sched", tu.frac(MODEL_THETA), R(src), str(flags[0]), str(flags[1]), str(uw), str(nw)] + [str(x) for x in case["arrival"]]
-        line += [str(len(recs))] + [str(x) for x in case["assignment"]]
+        par = ser = None
+        perr = serr = None
+        sims = []
+        try:
+            with time_limit(60):
+                par = run_parallel(dendropy, sumtrees, sf.paths, nw, case.get("assignment"), case["arrival"], src,
+                                   dendropy.TaxonNamespace(labels), bool(uw), flags, choices=case.get("choices"), sim_out=sims)
+        except Exception as e:   # noqa
+            perr = e
+        # which worker actually read which file (nw = nobody: the file was dropped)
+        took = {x: w for x, w in (sims[0].taken if sims else []) if x is not None}
+        realised = [took.get(pth, nw) for pth in sf.paths]
+        dropped = [k for k, a in enumerate(realised) if a == nw]
+        if case.get("choices") is not None:
+            case = dict(case, trace=[list(x) for x in (sims[0].trace if sims else [])])
+            ctx.extra["_last_trace"] = list(sims[0].trace) if sims else []
+        taken_by = None
+        if case.get("choices") is not None:
+            # the queue-level protocol model: same schedule, same protocol (end-of-work markers seen <=> blocking get)
+            sim = sims[0]
+            blocking = 1 if sim.sentinels else 0
+            index = {pth: k for k, pth in enumerate(sf.paths)}
+            taken_by = [[index[x] for x, w in sim.taken if w == i and x is not None] for i in range(nw)]
+            line = ["async", tu.frac(MODEL_THETA), R(src), str(flags[0]), str(flags[1]), str(uw), str(blocking), str(nw),
+                    str(len(case["choices"]))] + [str(x) for x in case["choices"]] + [str(nw)] + [str(x) for x in case["arrival"]]
+            line += [str(len(recs))]
+        else:
+            line = ["sched", tu.frac(MODEL_THETA), R(src), str(flags[0]), str(flags[1]), str(uw), str(nw)] + [str(x) for x in case["arrival"]]
+            line += [str(len(recs))] + [str(x) for x in realised]
         for f in recs:
             line.append(str(len(f)))
             for r in f:
                 line += trec_tokens(r)
-        par = ser = None
-        perr = serr = None
-        try:
-            with time_limit(60):
-                par = run_parallel(dendropy, sumtrees, sf.paths, nw, case["assignment"], case["arrival"], src,
-                                   dendropy.TaxonNamespace(labels), bool(uw), flags)
-        except Exception as e:   # noqa
-            perr = e
         if serial_cache is not None and "ser" in serial_cache:
             ser, serr = serial_cache["ser"]
         else:
@@ -1188,13 +1325,19 @@ def exec_sched(ctx, dendropy, case, sf=None, serial_cache=None):
                 serial_cache["ser"] = (ser, serr)
         flat = [r for f in recs for r in f]
         results = [("ok" if perr is None else err_name(perr)), ("ok" if serr is None else err_name(serr))]
+        if taken_by is not None:
+            results.append(taken_by)
         canons = []
         bad = None
         if serr is not None:
             bad = ("sched-serial", "serial SumTrees run raised %s: %s" % (type(serr).__name__, str(serr)[:160]))
         elif perr is not None:
             bad = ("sched-rejected", "parallel collation with %d workers, files->workers %s, arrival order %s raised %s: %s; the serial run succeeds" % (
-                nw, case["assignment"], case["arrival"], type(perr).__name__, str(perr)[:160]))
+                nw, realised, case["arrival"], type(perr).__name__, str(perr)[:160]))
+        elif dropped:
+            bad = ("sched-dropped", "parallel run with %d workers finished without error but file(s) %s were read by no worker (a worker "
+                   "that finds the work queue empty while items are still in flight quits); files->workers %s, queue schedule %s" % (
+                       nw, dropped, realised, case.get("choices")))
         if bad is None:
             cp, cs = canon_impl(par, float(THETA), full), canon_impl(ser, float(THETA), full)
             qp, qperr = run_queries(par, None)
@@ -1234,11 +1377,12 @@ def exec_sched(ctx, dendropy, case, sf=None, serial_cache=None):
                                 bad = ("sched-summary", "maximum credibility topology differs between parallel and serial run")
         if bad:
             ctx.fail(bad[0], bad[1], case)
-        idle = nw - len(set(case["assignment"]))
-        ctx.case([case["ntaxa"], case["rooted"], case["token"], nw, case["assignment"], case["arrival"],
-                  [[s["toks"] for s in f] for f in case["files"]]], idle > 0 or len(set(case["assignment"])) > 1,
-                 sample=dict(case, files="<%s trees>" % [len(f) for f in case["files"]]), kind="sched")
-        ctx.count("sched idle=%d" % idle)
+        idle = nw - len(set(a for a in realised if a < nw))
+        is_async = case.get("choices") is not None
+        ctx.case([case["ntaxa"], case["rooted"], case["token"], nw, case.get("assignment"), case.get("trace"), case["arrival"],
+                  [[s["toks"] for s in f] for f in case["files"]]], idle > 0 or len(set(realised)) > 1,
+                 sample=dict(case, files="<%s trees>" % [len(f) for f in case["files"]]), kind="sched-async" if is_async else "sched")
+        ctx.count("sched%s idle=%d" % ("-async" if is_async else "", idle))
         return " ".join(line), results, canons
     finally:
         if own:
@@ -1283,6 +1427,34 @@ def compare_sched(ctx, case, results, canons, out):
                 return
 
 
+def compare_async(ctx, case, results, canons, out):
+    """queue-level protocol model vs the simulated run of the real worker code: who read which file, and the master array"""
+    ctx.compared()
+    if out is None:
+        return
+    toks = out.split()
+    if toks == ["bad-op"]:
+        ctx.disagree("async", case, results, "bad-op")
+        return
+    p = Parser(toks)
+    mtaken = p.lst(lambda: p.lst(p.nat))
+    if mtaken != results[2]:
+        ctx.disagree("async files read by each worker", case, results[2], mtaken)
+        return
+    r = p.tok()
+    impl = "hang" if results[0] == "Internal(RuntimeError)" else results[0]
+    if r != impl:
+        ctx.disagree("async result", case, impl, r)
+        return
+    if r == "ok" and canons:
+        cm, scores, sums, cons = parse_dump(p)
+        ci = canons[0][0]
+        for key in ("rooting", "n4", "rows", "leafsets", "weights", "sd"):
+            if ci[key] != cm[key]:
+                ctx.disagree("async master %s" % key, case, ci[key], cm[key])
+                return
+
+
 def gen_sched_files(rng, nfiles, max_taxa=6, max_trees=3, allow_empty_file=False):
     ntaxa = rng.randint(4, max_taxa)
     weights = rng.random() < 0.4
@@ -1318,11 +1490,69 @@ def gen_sched_files(rng, nfiles, max_taxa=6, max_trees=3, allow_empty_file=False
     return {"mode": "sched", "ntaxa": ntaxa, "files": files, "rooted": rooted, "token": token, "flags": flags}
 
 
+def next_choices(trace):
+    """depth-first successor of a finished run: bump the last decision that still has an untried alternative"""
+    for j in range(len(trace) - 1, -1, -1):
+        k, n = trace[j]
+        if k + 1 < n:
+            return [t[0] for t in trace[:j]] + [k + 1]
+    return None
+
+
+def explore_async(ctx, dendropy, pending, base, nw, arrival, limit, deadline):
+    """every interleaving of item deliveries and worker queue operations (depth-first over the simulator's decisions)"""
+    sf = SchedFiles(base)
+    cache = {}
+    n = 0
+    complete = False
+    try:
+        choices = []
+        while choices is not None and n < limit and ctx.time_left() > deadline:
+            case = dict(base, nworkers=nw, choices=choices, arrival=arrival)
+            line, results, canons = exec_sched(ctx, dendropy, case, sf, cache)
+            pending.append((line, case, results, canons))
+            n += 1
+            trace = ctx.extra.pop("_last_trace", [])
+            choices = next_choices(trace)
+            if len(pending) >= 100:
+                flush(ctx, pending)
+        complete = choices is None
+    finally:
+        sf.close()
+    return n, complete
+
+
+def sample_async(ctx, dendropy, pending, rng, count, deadline):
+    k = 0
+    while k < count and ctx.time_left() > deadline:
+        nfiles = rng.randint(1, 3)
+        base = gen_sched_files(rng, nfiles, max_taxa=5, max_trees=2)
+        sf = SchedFiles(base)
+        cache = {}
+        try:
+            for _ in range(4):
+                nw = rng.randint(2, 4)
+                case = dict(base, nworkers=nw, choices=[rng.randrange(4) for _ in range(rng.randint(0, 24))],
+                            arrival=rng.sample(range(nw), nw))
+                line, results, canons = exec_sched(ctx, dendropy, case, sf, cache)
+                pending.append((line, case, results, canons))
+                ctx.extra.pop("_last_trace", None)
+                k += 1
+        finally:
+            sf.close()
+        if len(pending) >= 100:
+            flush(ctx, pending)
+    flush(ctx, pending)
+
+
 # ======================================================================================= real multi-process CLI
-def cli_run(args, timeout=120):
+def cli_run(args, timeout=120, pin=False):
     code = ("import sys, warnings; warnings.simplefilter('ignore'); sys.path.insert(0, %r); "
             "from dendropy.application import sumtrees; sys.argv = ['sumtrees'] + sys.argv[1:]; sumtrees.main()" % os.path.join(REPO, "src"))
-    p = subprocess.run([sys.executable, "-c", code] + args, stdout=subprocess.PIPE, stderr=subprocess.PIPE, text=True, timeout=timeout)
+    cmd = [sys.executable, "-c", code] + args
+    if pin and shutil.which("taskset"):
+        cmd = ["taskset", "-c", "0"] + cmd      # all processes on one CPU: workers start before the feeder thread has flushed
+    p = subprocess.run(cmd, stdout=subprocess.PIPE, stderr=subprocess.PIPE, text=True, timeout=timeout)
     return p.returncode, p.stdout, p.stderr
 
 
@@ -1339,7 +1569,7 @@ def exec_cli(ctx, dendropy, case):
                 args.append("--rooted")
             elif case["rooted"] is False:
                 args.append("--unrooted")
-            rc, so, se = cli_run(args)
+            rc, so, se = cli_run(args, pin=(name == "par" and case.get("repeat", 0) % 2 == 1))
             if rc != 0 or not os.path.exists(out):
                 outs[name] = ("error", (se or so)[-300:])
             else:
@@ -1371,7 +1601,7 @@ def run(ctx):
     for case in seed_cases():
         run_any(ctx, dendropy, case, pending)
     # ---- random histories
-    t_hist = ctx.pick(22, 240)
+    t_hist = ctx.pick(22, 200)
     n = 0
     while n < ctx.pick(700, 12000) and (ctx.budget_s - ctx.time_left()) < t_hist:
         case = gen_history(rng, max_taxa=ctx.pick(7, 9), max_ops=ctx.pick(14, 20))
@@ -1410,6 +1640,10 @@ def run(ctx):
         if len(pending) >= 100:
             flush(ctx, pending)
     flush(ctx, pending)
+    # ---- schedules with asynchronous delivery of the work items (multiprocessing.Queue.put returns before the item is in the pipe)
+    if ASYNC_IN_QUICK or ctx.tier == "thorough":
+        sample_async(ctx, dendropy, pending, rng, ctx.pick(80, 400), ctx.pick(3, 420))
+    ctx.extra.pop("_last_trace", None)
     if ctx.tier == "thorough":
         thorough(ctx, dendropy, pending)
 
@@ -1523,16 +1757,28 @@ def thorough(ctx, dendropy, pending):
                 sf.close()
     flush(ctx, pending)
     ctx.extra["exhaustive_schedules"] = "%d schedules: every (file->worker assignment, arrival order) for 1-3 files x 2-4 workers, implicit and random rooting" % scount
-    # (3) genuine multi-process runs of the command-line program
-    for mp in (["-m", "2"], ["-m", "4"], ["-M"]):
-        if ctx.time_left() < 40:
-            break
-        base = gen_sched_files(rng, 2, max_taxa=5, max_trees=3, allow_empty_file=False)
-        base.update(mode="cli", mp=mp, rooted=None, token=None)
-        try:
-            exec_cli(ctx, dendropy, base)
-        except subprocess.TimeoutExpired:
-            ctx.note("cli %s timed out" % mp)
+    # (2b) every interleaving of deliveries and queue operations for the smallest configurations
+    acount, adone = 0, []
+    for nfiles, nw in ((1, 2), (2, 2), (1, 3)):
+        base = gen_sched_files(rng, nfiles, max_taxa=5, max_trees=2)
+        base.update(rooted=None, token=None)
+        n, complete = explore_async(ctx, dendropy, pending, base, nw, list(range(nw)), 3000, 200)
+        acount += n
+        adone.append("%d files x %d workers: %d interleavings%s" % (nfiles, nw, n, "" if complete else " (cut off)"))
+    flush(ctx, pending)
+    ctx.extra.pop("_last_trace", None)
+    ctx.extra["exhaustive_async"] = "; ".join(adone)
+    # (3) genuine multi-process runs of the command-line program, each repeated (scheduling differs from run to run)
+    for mp in (["-M"], ["-m", "2"], ["-m", "3"]):
+        base = gen_sched_files(rng, rng.choice([2, 3]), max_taxa=5, max_trees=2, allow_empty_file=False)
+        base.update(mode="cli", mp=mp, rooted=None, token=None, flags=[0, 1, 1])
+        for rep_ in range(5):
+            if ctx.time_left() < 30:
+                break
+            try:
+                exec_cli(ctx, dendropy, dict(base, repeat=rep_))
+            except subprocess.TimeoutExpired:
+                ctx.note("cli %s timed out" % mp)
     ctx.extra["exhaustive"] = False
 
 
